@@ -130,6 +130,8 @@ type U struct {
 	C2 int64
 	C3 int64
 	K4 int64 `gorm:"column:u5"`
+	// soft delete: the query clause is a StatementModifier that edits the WHERE clause at build time; Unscoped skips it
+	Gone gorm.DeletedAt
 }
 type TX struct { // table "ts" of the executed stream
 	ID int64 `gorm:"primaryKey"`
@@ -166,7 +168,8 @@ func (u *U) BeforeCreate(*gorm.DB) error  { u.C2 = 88; return nil }
 func (U) TableName() string               { return "us" }
 
 func openExec() (*gorm.DB, *recdrv.Recorder) {
-	db, rec, _, err := gdb.Open(gdb.Opt{Config: &gorm.Config{SkipDefaultTransaction: true, Logger: logger.Discard}})
+	db, rec, _, err := gdb.Open(gdb.Opt{Config: &gorm.Config{SkipDefaultTransaction: true, Logger: logger.Discard,
+		NowFunc: func() time.Time { return time.Unix(1600000000, 0).UTC() }}}) // time pinned: soft delete binds it
 	lib.Must(err)
 	lib.Must(db.AutoMigrate(&TX{}, &U{}, &Q{}))
 	var ts []TX
@@ -178,6 +181,7 @@ func openExec() (*gorm.DB, *recdrv.Recorder) {
 	seed := db.Session(&gorm.Session{SkipHooks: true})
 	lib.Must(seed.Omit("Q").Create(&ts).Error)
 	lib.Must(seed.Create(&us).Error)
+	lib.Must(seed.Exec("UPDATE us SET gone = '2020-01-02 03:04:05' WHERE id = 13").Error)
 	qs := []Q{{ID: 1, TXID: 1, W: 3}, {ID: 2, TXID: 2, W: 9}, {ID: 3, TXID: 4, W: 1}, {ID: 4, TXID: 5, W: 6}}
 	lib.Must(seed.Create(&qs).Error)
 	rec.Reset()
